@@ -1,15 +1,21 @@
 import PV.Proofs.Compile
 import PV.Properties.C09
 import PV.Generated.Prec
+import PV.Proofs.C13Groups
+import PV.Properties.C06
+import PV.Properties.C07
 /-
   C13 — property theorems.
 
   The four translation paths are modelled in PV/Model/Compile.lean; agreement of each model with
   the real code (source text and argument list of `compile`, the AST of `to_python_ast`, the tree
   of `ASTToPymbolic`, and the meaning `denAst` against CPython executing the AST) is checked by the
-  correspondence streams of harness/props/c13.py on every run.  What CPython does with source TEXT
-  (`eval`, `ast.unparse`) is not modelled: that part of the property is covered by executing every
-  generated program (oracle streams).
+  correspondence streams of harness/props/c13.py on every run.  What CPython does with source TEXT:
+  for `compile` the GROUPING of the text under Python's grammar is proved (section "The compiled
+  SOURCE under Python's grammar": the parser model of C06/C07 with the hand-written Python table
+  `pythonPrec`, tied to CPython's `ast.parse` by the stream `py-table`); what the grouped
+  operators compute, and `ast.unparse`, are covered by executing every generated program (oracle
+  streams).
 -/
 namespace PV.C13
 open PV
@@ -692,6 +698,297 @@ theorem pickle_same (S : PrintPrec) (e : Expr) (listed : List String) (c : Compi
 /-- the printer `compile` uses is the C06 stringifier except for constants -/
 theorem compile_printer_is_stringifier (S : PrintPrec) (e : Expr) (enc : Nat) :
     strG S (constPieces S) e enc = strE S e enc := strG_eq_strE S e enc
+
+
+/-! ## The compiled SOURCE under Python's grammar
+
+`compile` hands CPython a TEXT.  The parser model of C06/C07 is generic in its precedence table;
+run with `pythonPrec` (PV/Model/PyPrec.lean) it groups the way Python's expression grammar does —
+that is the hand-written reference of DESIGN.md §3.4, tied to CPython's `ast.parse` on every run
+by the stream `py-table` (all skeletons with ≤ 2 operators, sampled / all 3-operator skeletons,
+random deeper strings) EXCEPT on four shapes that the SCHEME of the parser model cannot express
+whatever the numbers; they are pinned down below (`python_table_grouping`, `python_table_prefix`,
+and the else-branch, read at the lowest level).  The round-trip theorem of C06, instantiated with
+(`pythonPrec`, stringifier table), then says: the source text of a tree of the fragment is read
+back, under the Python table, as the tree itself. -/
+
+section source
+open PV.Syntax PV.Generated
+
+/-- Python binds every pair of binary operators the way the parser model with `pythonPrec` does,
+EXCEPT (a) `*` followed by `* / // %`: the scheme reads the right operand of `*` at the level of a
+sum (`a*b/c` is `a*(b/c)`; for `a*b*c` the difference disappears once products are flattened),
+(b) two comparisons: the scheme nests them, Python chains them.  Both shapes never occur in a
+compiled source of the fragment (divisions next to products are force-parenthesised, comparison
+operands of comparisons are parenthesised) and are excluded from the `py-table` tie. -/
+theorem python_table_grouping :
+    (C07.groupingDeviations pythonPrec).map (fun p => (p.1.sym, p.2.sym)) =
+      [("*", "*"), ("*", "/"), ("*", "//"), ("*", "%"),
+       ("==", "=="), ("==", "<"), ("<", "=="), ("<", "<")] := by
+  decide
+
+/-- a prefix `-` / `~` against every binary operator: as Python (in particular `-a**b` is
+`-(a**b)`).  The keyword `not` cannot be ranked by the scheme (one level for all prefix
+operators): `not a o b` is read `(not a) o b` for every binary `o` but `**`, Python reads
+`not (a o b)` unless `o` is `and` / `or`. -/
+theorem python_table_prefix :
+    (C07.prefixDeviations pythonPrec).map (fun p => (p.1.sym, p.2.sym)) =
+      [("not", "+"), ("not", "-"), ("not", "*"), ("not", "/"), ("not", "//"), ("not", "%"),
+       ("not", "<<"), ("not", ">>"), ("not", "&"), ("not", "|"), ("not", "^"),
+       ("not", "=="), ("not", "<")] := by
+  decide
+
+theorem python_table_guards_positive : C07.guardsPositive pythonPrec = true := by decide
+
+/-- on every other pair of binary operators the parser model with the Python table returns
+Python's grouping (`C07.pyGroup`, written down from the language reference) -/
+theorem python_table_agrees (o1 o2 : BinTok) (h1 : o1 ∈ C07.binToks) (h2 : o2 ∈ C07.binToks)
+    (hd : (o1, o2) ∉ C07.groupingDeviations pythonPrec) (a b c : String) :
+    parseTop pythonPrec 0 [.ident a, .sym o1.sym, .ident b, .sym o2.sym, .ident c] =
+      match C07.pyGroup o1 o2 with
+      | .right => o2.build (.var b) (.var c) >>= o1.build (.var a)
+      | _ => o1.build (.var a) (.var b) >>= fun l => o2.build l (.var c) := by
+  rw [C07.two_operator_grouping python_table_guards_positive]
+  have hmem : (o1, o2) ∈ C07.allPairs := by
+    simp only [C07.allPairs, List.mem_flatMap, List.mem_map]
+    exact ⟨o1, h1, o2, h2, rfl⟩
+  have : C07.parserGroup pythonPrec o1 o2 = C07.pyGroup o1 o2 := by
+    by_cases hne : C07.parserGroup pythonPrec o1 o2 = C07.pyGroup o1 o2
+    · exact hne
+    · exact absurd (List.mem_filter.mpr ⟨hmem, by simpa using hne⟩) hd
+  have hnc : C07.pyGroup o1 o2 ≠ .chain := by
+    rw [← this]; unfold C07.parserGroup; split <;> simp
+  unfold C07.parserGroup at this
+  split at this
+  · rw [← this]; simp [*]
+  · revert hnc
+    rw [← this]; simp [*]
+
+/-- the same for a prefix `-` / `~` (every binary operator) and for `not` before `**`, `and`,
+`or` -/
+theorem python_table_prefix_agrees (p : PreTok) (o : BinTok) (ho : o ∈ C07.binToks)
+    (hd : (p, o) ∉ C07.prefixDeviations pythonPrec) (a b : String) :
+    parseTop pythonPrec 0 [.sym p.sym, .ident a, .sym o.sym, .ident b] =
+      if C07.pyPrefixWide p o then o.build (.var a) (.var b) >>= p.build
+      else p.build (.var a) >>= fun l => o.build l (.var b) := by
+  rw [C07.prefix_operator_grouping python_table_guards_positive]
+  have hmem : (p, o) ∈ [PreTok.neg, .bnot, .lnot].flatMap fun p => C07.binToks.map fun o => (p, o) := by
+    simp only [List.mem_flatMap, List.mem_map]
+    exact ⟨p, by cases p <;> simp, o, ho, rfl⟩
+  have : C07.absorbsPre pythonPrec o = C07.pyPrefixWide p o := by
+    by_cases hne : C07.absorbsPre pythonPrec o = C07.pyPrefixWide p o
+    · exact hne
+    · exact absurd (List.mem_filter.mpr ⟨hmem, by simpa using hne⟩) hd
+  rw [this]
+
+example : parseTop pythonPrec 0 [.sym "-", .ident "a", .sym "**", .ident "b"]
+    = .ok (.nary .prod [.const (.int (-1)), .bin .pow (.var "a") (.var "b")]) := by decide +kernel
+example : parseTop pythonPrec 0 [.ident "a", .sym "&", .ident "b", .sym "==", .ident "c"]
+    = .ok (.cmp .eq (.nary .band [.var "a", .var "b"]) (.var "c")) := by decide +kernel
+example : parseTop pythonPrec 0 [.ident "a", .sym "|", .ident "b", .sym "^", .ident "c"]
+    = .ok (.nary .bor [.var "a", .nary .bxor [.var "b", .var "c"]]) := by decide +kernel
+
+/-- **Where no signed constant needs parentheses, the compiled source IS the stringifier's
+text**: `CompileMapper` differs from the stringifier in `map_constant` only (`repr`, never
+parenthesised). -/
+theorem compile_text_is_str (S : PrintPrec) (e : Expr) (h : reprSame S e S.none = true) :
+    compilePieces S e = strTop S e :=
+  strG_repr_eq_strE S e S.none h
+
+/-- **The compiled source groups the way the tree does, for ANY parser table and printer table**
+(the round-trip theorem of C06, proved again for the printer `compile()` really uses: constants
+through `repr`, never parenthesised — PV/Proofs/C13Syn*.lean).  For every tree of the fragment
+`C13R.InFragment P S` (covered node shapes; every child passes the local condition
+`C13R.okTriple P S position class`) the compiled source exists, its token list is parsed —
+completely, with the fuel `parseTop` really uses — to the parser's normal form `pnf e` of the
+tree, which is `e` once nested sums and products are flattened, and compiling that normal form
+gives the same source again. -/
+theorem compile_source_groups_partial {P : ParserPrec} {S : PrintPrec} {e : Expr}
+    (h : C13R.InFragment P S e = true) :
+    ∃ ps, compilePieces S e = .ok ps ∧ parseTop P 0 (toks ps) = .ok (pnf e) ∧
+      flattenAssoc (pnf e) = flattenAssoc e ∧ compilePieces S (pnf e) = .ok ps := by
+  simp only [C13R.InFragment, Bool.and_eq_true] at h
+  obtain ⟨ps, hs⟩ := C13R.str_total h.1 S.none
+  refine ⟨ps, hs, C13R.parseTop_str h.1 h.2 hs, C13R.flatten_pnf h.1, ?_⟩
+  have := C13R.str_pnf h.1 S.none
+  simp only [compilePieces]
+  rw [this]; exact hs
+
+/-- the compiler's printer does not see the nesting of sums and products -/
+theorem compile_flatten_invariant (S : PrintPrec) {e : Expr} (h : nonemptyNary e = true) :
+    compilePieces S (flattenAssoc e) = compilePieces S e :=
+  C13R.str_flatten S h S.none
+
+/-- the same with sums and products nested in any way (the local conditions are checked on the
+flattened tree) -/
+theorem compile_source_groups_flat_partial {P : ParserPrec} {S : PrintPrec} {e : Expr}
+    (h : C13R.InFragmentFlat P S e = true) :
+    ∃ ps e', compilePieces S e = .ok ps ∧ parseTop P 0 (toks ps) = .ok e' ∧
+      flattenAssoc e' = flattenAssoc e := by
+  simp only [C13R.InFragmentFlat, Bool.and_eq_true] at h
+  obtain ⟨ps, hps, hparse, hflat, _⟩ := compile_source_groups_partial h.2
+  refine ⟨ps, _, by rw [← compile_flatten_invariant S h.1]; exact hps, hparse, ?_⟩
+  rw [hflat, flattenAssoc_idem]
+
+/-- the literal instance of the C06 theorem: where every signed constant sits in a position in
+which `str` prints it bare (`reprSame`), the compiled source is the stringifier's text and
+`C06.roundtrip_partial` for (parser table, stringifier table) applies as it stands -/
+theorem compile_source_groups_via_str_partial {P : ParserPrec} {S : PrintPrec} {e : Expr}
+    (h : InFragment P S e = true) (hc : reprSame S e S.none = true) :
+    ∃ ps, compilePieces S e = .ok ps ∧ parseTop P 0 (toks ps) = .ok (pnf e) ∧
+      flattenAssoc (pnf e) = flattenAssoc e := by
+  obtain ⟨ps, hs⟩ := C06.print_total h
+  refine ⟨ps, by rw [compile_text_is_str S e hc]; exact hs, C06.roundtrip_normal_form h hs, ?_⟩
+  simp only [InFragment, Bool.and_eq_true] at h
+  exact flatten_pnf h.1
+
+/-- what `compile` stores as the body of the lambda is the rendering of `compilePieces` -/
+theorem compile_src_is_render {S : PrintPrec} {e : Expr} {listed : List String} {c : Compiled}
+    {ps : Pieces} (hc : compileModel S e listed = .ok c) (hps : compilePieces S e = .ok ps) :
+    c.src = render ps ∧
+      c.lambdaSrc = "lambda " ++ ",".intercalate c.args ++ ": " ++ render ps := by
+  have hsrc : c.src = render ps := by
+    unfold compileModel at hc
+    split at hc
+    · cases hc
+    · split at hc
+      · cases hc
+      · rename_i s hs
+        simp only [pure, Except.pure, Except.ok.injEq] at hc
+        subst hc
+        simp only [compileStr, hps, Except.map, Except.ok.injEq] at hs
+        exact hs.symm
+  exact ⟨hsrc, by simp only [Compiled.lambdaSrc, hsrc]⟩
+
+/-- **C13 for the source text of the current code.**  Let `e` be in the fragment `InFragmentPy`
+computed from the Python table and the REGENERATED stringifier table (covered node shapes, the
+local condition `gOk` at every child: C06's condition with `repr` constants, and every `not`
+operand parenthesised or where Python's grammar admits it), and let `compile(e, listed)`
+succeed.  Then the body of the lambda handed to `eval` is the rendering of a piece list whose
+tokens the parser model with the Python table reads — all of them — as a tree that is `e` once
+nested sums and products are flattened: executing the source evaluates the tree the evaluator
+evaluates.  (The `not` condition is not used by the proof: it delimits the texts on which the
+parser model with the Python table is tied to CPython.) -/
+theorem compile_source_groups_current {e : Expr} {listed : List String} {c : Compiled}
+    (h : InFragmentPy pythonPrec printPrec e = true)
+    (hc : compileModel printPrec e listed = .ok c) :
+    ∃ ps e', compilePieces printPrec e = .ok ps ∧ c.src = render ps ∧
+      c.lambdaSrc = "lambda " ++ ",".intercalate c.args ++ ": " ++ render ps ∧
+      parseTop pythonPrec 0 (toks ps) = .ok e' ∧ flattenAssoc e' = flattenAssoc e := by
+  simp only [InFragmentPy, Bool.and_eq_true] at h
+  obtain ⟨ps, hps, hparse, hflat, _⟩ := compile_source_groups_partial h.1
+  obtain ⟨h1, h2⟩ := compile_src_is_render hc hps
+  exact ⟨ps, pnf e, hps, h1, h2, hparse, hflat⟩
+
+/-- the same for trees whose sums and products are nested in any way -/
+theorem compile_source_groups_flat_current {e : Expr} {listed : List String} {c : Compiled}
+    (h : InFragmentPyFlat pythonPrec printPrec e = true)
+    (hc : compileModel printPrec e listed = .ok c) :
+    ∃ ps e', compilePieces printPrec e = .ok ps ∧ c.src = render ps ∧
+      parseTop pythonPrec 0 (toks ps) = .ok e' ∧ flattenAssoc e' = flattenAssoc e := by
+  simp only [InFragmentPyFlat, Bool.and_eq_true] at h
+  obtain ⟨ps, e', hps, hparse, hflat⟩ := compile_source_groups_flat_partial h.1
+  exact ⟨ps, e', hps, (compile_src_is_render hc hps).1, hparse, hflat⟩
+
+/-- **Which (position, child class) pairs fail the local condition of C13** for the Python table
+and the regenerated stringifier table — exactly these 42:
+* GENUINE DEFECTS (known findings `compile:<Parent>>LogicalNot`, 12 parent classes): an
+  unparenthesised `not …` as an operand of `+ * / // % << >> & ^ |`, of a comparison, or of `~`
+  (the printer ranks `not` with the unary operators; Python reads `not a == b` as
+  `not (a == b)` and rejects `a * not b`); and `compile:Power>negative-int` /
+  `compile:Power>negative-float`: a negative constant as the base of a power (`-2**a`);
+* a negative constant as a callee / aggregate (`-2(x)`, `-2[x]`, `-2.5.real`): misread as well,
+  but a number cannot be called or subscripted and `(-2.5).real = -(2.5.real)`: no observable
+  difference, no finding;
+* NO DEFECT, the reparsed tree is nested differently but has the same value: a product as a
+  non-last operand of a product / a sum as a non-first operand of a sum (equal once flattened;
+  `compile_source_groups_flat_current`); a `& ^ | and or` node as the RIGHT operand of the same
+  operator (`a & (b & c)` prints `a & b & c`, Python nests to the left: associative);
+* NO DEFECT, an artefact of the local condition: a power under `~` / `not` (`~a**b`: read
+  correctly by Python and by the parser model; the condition does not see that nothing can follow
+  that a loop at the level of `*` would absorb);
+* NO DEFECT in `compile`, a limit of the parser SCHEME (the else-branch is read at the lowest
+  level): a conditional as an argument, element or slice part — Python reads
+  `f(x if c else y, z)` correctly;
+* shapes outside the value property (tuple as a non-tuple index, slice inside a slice). -/
+theorem source_bad_pairs_current : gBadPairs pythonPrec printPrec =
+    [(.std (.left .plus), .un .lnot),
+     (.std (.left .times), .nary .prod), (.std (.left .times), .un .lnot),
+     (.std (.left .quot), .un .lnot), (.std (.left .floordiv), .un .lnot),
+     (.std (.left .rem), .un .lnot),
+     (.std (.left .pow), .neg),
+     (.std (.left .lshift), .un .lnot), (.std (.left .rshift), .un .lnot),
+     (.std (.left .band), .un .lnot), (.std (.left .bxor), .un .lnot),
+     (.std (.left .bor), .un .lnot), (.std (.left (.cmp .eq)), .un .lnot),
+     (.std (.right .plus), .nary .sum), (.std (.right .plus), .un .lnot),
+     (.std (.right .times), .un .lnot), (.std (.right .quot), .un .lnot),
+     (.std (.right .floordiv), .un .lnot), (.std (.right .rem), .un .lnot),
+     (.std (.right .lshift), .un .lnot), (.std (.right .rshift), .un .lnot),
+     (.std (.right .band), .nary .band), (.std (.right .band), .un .lnot),
+     (.std (.right .bxor), .nary .bxor), (.std (.right .bxor), .un .lnot),
+     (.std (.right .bor), .nary .bor), (.std (.right .bor), .un .lnot),
+     (.std (.right .land), .nary .land), (.std (.right .lor), .nary .lor),
+     (.std (.right (.cmp .eq)), .un .lnot),
+     (.std .unArg, .bin .pow), (.std .unArg, .un .lnot),
+     (.std .callee, .neg),
+     (.std .arg, .ite), (.std .index, .tuple), (.std .elemFirst, .ite), (.std .elemRest, .ite),
+     (.std .slicePart, .ite), (.std .slicePart, .slice), (.std .sliceLast, .ite),
+     (.std .sliceLast, .slice),
+     (.notArg, .bin .pow)] := by
+  decide
+
+private abbrev sa : Expr := .var "a"
+private abbrev sb : Expr := .var "b"
+private abbrev sz : Expr := .var "z"
+
+/-- a tree of the fragment using every covered operator, with negative constants in loose and
+in tight positions (`-1*b`, `b**-2`: printed bare by `repr`) -/
+def sourceSample : Expr :=
+  .ite (.nary .lor [.un .lnot (.cmp .lt sa (.const (.int (-1)))), .nary .band [sa, sb]])
+    (.nary .sum [.bin .quot (.nary .prod [.const (.int (-1)), sa, .bin .pow sb (.const (.int (-2)))])
+        (.nary .sum [sa, .const (.int (-3))]),
+      .bin .floordiv sa sb])
+    (.bin .lshift (.un .bnot (.call (.var "f") [sa, .nary .bxor [sb, sz]])) (.const (.int 1)))
+
+example : InFragmentPy pythonPrec printPrec sourceSample = true := by decide +kernel
+example : (compilePieces printPrec sourceSample).map render
+    = .ok ("(-1*a*b**-2) / (a + -3) + a // b if not (a < -1) or a & b else ~f(a, b ^ z) << 1") := by
+  decide +kernel
+
+/-- the local condition is needed: `compile(Power(-2, a))` has the source `-2**a`, which the
+Python table (like Python) reads as `-(2**a)`; the pair (base of a power, negative constant) is
+in `source_bad_pairs_current` and the tree is outside the fragment -/
+theorem compile_neg_base_source_cex :
+    C13R.InFragment pythonPrec printPrec (.bin .pow (.const (.int (-2))) sa) = false ∧
+    ∃ ps e', compilePieces printPrec (.bin .pow (.const (.int (-2))) sa) = .ok ps ∧
+      parseTop pythonPrec 0 (toks ps) = .ok e' ∧
+      e' = .nary .prod [.const (.int (-1)), .bin .pow (.const (.int 2)) sa] ∧
+      flattenAssoc e' ≠ flattenAssoc (.bin .pow (.const (.int (-2))) sa) :=
+  ⟨by decide +kernel, _, _, rfl, by decide +kernel, rfl, by decide +kernel⟩
+
+/-- negative constants elsewhere in tight positions are inside the fragment: `a**-2`, `-1*a`,
+`a / -2`, `~-2` -/
+example : InFragmentPy pythonPrec printPrec
+    (.nary .prod [.const (.int (-1)), .bin .quot (.bin .pow sa (.const (.int (-2)))) (.const (.int (-2))),
+      .un .bnot (.const (.int (-2)))]) = true := by decide +kernel
+
+/-- the `not` condition is needed for the tie to Python, not for the parser model: the scheme
+reads `not a == b` as `(not a) == b` (one level for all prefix operators), Python as
+`not (a == b)`; `notOk` excludes the tree -/
+theorem compile_not_scheme_cex :
+    C13R.InFragment pythonPrec printPrec (.cmp .eq (.un .lnot sa) sb) = true ∧
+    notOk pythonPrec printPrec (.cmp .eq (.un .lnot sa) sb) = false ∧
+    parseTop pythonPrec 0 [.sym "not", .ident "a", .sym "==", .ident "b"]
+      = .ok (.cmp .eq (.un .lnot sa) sb) :=
+  ⟨by decide +kernel, by decide +kernel, by decide +kernel⟩
+
+/-- where Python admits `not`: operands of `and` / `or`, parts of a conditional, arguments, the
+operand of another `not` -/
+example : notOk pythonPrec printPrec
+    (.ite (.un .lnot sa) (.nary .land [.un .lnot sa, .un .lnot (.un .lnot sb)])
+      (.call (.var "f") [.un .lnot sa])) = true := by decide +kernel
+
+end source
 
 /-! ## The mapper's memo table is transparent -/
 
